@@ -328,5 +328,110 @@ def double_update_history(rng, i, name, quick=True, suite=1, providers=None):
     return g, marks
 
 
+def rejoin_history(rng, i, name, suite=1, providers=None):
+    """A member re-joins by an external commit that removes its old leaf while an EARLIER leaf is blank:
+    the new leaf belongs in the leftmost blank slot, the old leaf's direct path is blanked."""
+    n = rng.choice([4, 5, 6, 8])
+    g = HistGen(rng, n_pool=n + 1, suite=suite, providers=providers, name=name)
+    g.start()
+    g.round(app=False, n_props=0, by_value_adds=n - 1, by_value_removes=0, path_required=True, echo=False)
+    order = list(g.in_group)
+    mover = order[rng.choice(list(range(n // 2, n)))]             # somebody in the right half
+    g.round_explicit(mover, n_adds=0, remove_names=[])             # the others learn keys of its path
+    victim = order[rng.below(n // 2)]                              # an early leaf becomes blank
+    g.round_explicit(rng.choice([m for m in g.in_group if m not in (victim, mover)]), n_adds=0, remove_names=[victim])
+    w = rng.choice([m for m in g.in_group if m != mover])
+    gi = g.fresh("gi")
+    g.ops.append({"op": "group_info", "who": w, "id": gi, "ext_commit": True, "tree_ext": True})
+    xc = g.fresh("xc")
+    g.ops.append({"op": "ext_commit", "who": mover, "gi": gi, "id": xc, "remove_self": True})
+    for m in g.in_group:
+        if m != mover:
+            g.ops.append({"op": "deliver", "to": m, "msg": xc})
+    g.epoch += 1
+    g.ops.append({"op": "observe", "who": w, "observe": "all"})
+    g.round_explicit(rng.choice(g.in_group), n_adds=0, remove_names=[])
+    return g, mover
+
+
+def shrink_regrow_history(rng, i, name, quick=True, suite=1, providers=None):
+    """The right half of the tree is emptied by ONE commit (two or more removals at once, so that the
+    node vector is truncated across a power of two), some traffic happens on the small tree, then the
+    group grows back over the old boundary: by an add with or without a path, or by an external commit.
+    Everybody - in particular the members added AFTER the shrink and the member that joins on
+    regrowth - must agree with the members that lived through the shrink."""
+    n = rng.choice([6, 7, 10, 12])
+    g = HistGen(rng, n_pool=n + 4, suite=suite, providers=providers, name=name)
+    g.start()
+    marks = []
+    a = g.round(app=False, n_props=0, by_value_adds=n - 1, by_value_removes=0, path_required=rng.chance(1, 2), echo=False)
+    marks.append((len(g.ops) - 1, g.epoch))
+    order = [g.pool[0]] + a["adds"]
+    cap = 4 if n <= 7 else 8
+    victims, keep = order[cap:], order[:cap]
+    if i % 3 == 1 and cap == 4:
+        # first make a hole on the left so that a member can be added BETWEEN shrink and regrowth
+        hole = keep[1]
+        g.round_explicit(keep[0], n_adds=0, remove_names=[hole])
+        marks.append((len(g.ops) - 1, g.epoch))
+        keep = [k for k in keep if k != hole]
+    g.round_explicit(rng.choice(keep), n_adds=0, remove_names=victims, tree_ext=rng.chance(1, 2))
+    marks.append((len(g.ops) - 1, g.epoch))
+    if i % 3 == 1 and cap == 4:
+        g.round_explicit(rng.choice(keep), n_adds=1, remove_names=[])      # lands in the hole, tree stays small
+        marks.append((len(g.ops) - 1, g.epoch))
+    if rng.chance(1, 2):
+        g.round_explicit(rng.choice(keep), n_adds=0, remove_names=[])
+        marks.append((len(g.ops) - 1, g.epoch))
+    # regrowth
+    for r in range(2):
+        g.round(app=False, n_props=0, by_value_adds=1 + rng.below(2), by_value_removes=0, path_required=rng.chance(1, 2), echo=False)
+        marks.append((len(g.ops) - 1, g.epoch))
+    g.round_explicit(g.in_group[-1], n_adds=0, remove_names=[])
+    marks.append((len(g.ops) - 1, g.epoch))
+    return g, marks
+
+
+def failed_apply_history(rng, i, name, quick=True, suite=1, providers=None):
+    """A member saves, builds a commit with a path, and the first storage call of applying it fails
+    (the archive of the ended epoch asks the storage for its newest epoch).  The member must still be
+    exactly the member of the old epoch - tree, private keys, pending commit -: it is observed, then
+    either retries, or clears the commit and follows the commit of somebody else that won the race;
+    afterwards it commits itself.  Ops that are meant to fail carry `may_fail`."""
+    n = rng.choice([3, 4, 5, 6, 8])
+    g = HistGen(rng, n_pool=n + 1, suite=suite, providers=providers, name=name)
+    g.start()
+    g.round(app=False, n_props=0, by_value_adds=n - 1, by_value_removes=0, path_required=True)
+    if rng.chance(1, 2):
+        g.round_explicit(rng.choice(g.in_group), n_adds=0, remove_names=[])
+    a = rng.choice(g.in_group)
+    b = rng.choice([m for m in g.in_group if m != a])
+    g.ops.append({"op": "save", "who": a})
+    ca = g.fresh("c")
+    g.ops.append({"op": "commit", "who": a, "id": ca, "add": [], "remove_names": []})
+    retry = (i % 3 == 0)
+    if not retry:
+        cb = g.fresh("c")
+        g.ops.append({"op": "commit", "who": b, "id": cb, "add": [], "remove_names": []})
+    g.ops.append({"op": "apply", "who": a, "fail_at": [0], "may_fail": True})
+    g.ops.append({"op": "observe", "who": a, "observe": [a]})
+    if retry:
+        for m in g.in_group:
+            if m != a:
+                g.ops.append({"op": "deliver", "to": m, "msg": ca})
+        g.ops.append({"op": "apply", "who": a})
+    else:
+        g.ops.append({"op": "clear", "who": a})
+        for m in g.in_group:
+            if m != b:
+                g.ops.append({"op": "deliver", "to": m, "msg": cb})
+        g.ops.append({"op": "apply", "who": b})
+    g.epoch += 1
+    g.ops.append({"op": "observe", "who": a, "observe": "all"})
+    g.round_explicit(a, n_adds=0, remove_names=[])
+    g.round_explicit(rng.choice([m for m in g.in_group if m != a]), n_adds=0, remove_names=[])
+    return g, a
+
+
 def errs(records):
     return [r for r in records if r.get("ok") is False or r.get("crash")]
